@@ -62,6 +62,14 @@ PutOKObserved(ok, hs, askedw) ==
 GetOK(ok, seq) == /\ ok <=> (UpHolders # {})                           \* (E3)
                   /\ seq = IF UpHolders # {} THEN SubSeq(Order, 1, FirstUpHolder) ELSE Order   \* (E4)
 
+\* what is judged on recorded executions: the requests follow the rendezvous order and reach the
+\* first holder that is up (a reader that asked further services after finding the block would
+\* be wasteful, not in violation of any statement)
+GetOKObserved(ok, seq) ==
+    /\ ok <=> (UpHolders # {})
+    /\ Len(seq) <= n /\ seq = SubSeq(Order, 1, Len(seq))
+    /\ IF UpHolders # {} THEN Len(seq) >= FirstUpHolder ELSE seq = Order
+
 Init == \E nn \in 1 .. MaxN, w \in 1 .. MaxWant :
         \E W \in SUBSET (1 .. nn), R \in SUBSET (1 .. nn), D \in SUBSET (1 .. nn) :
           /\ n = nn /\ want = w /\ wr = W /\ refuse = R /\ downs = D
